@@ -63,3 +63,19 @@ def _hw(I, args, kw):
     (self,) = args
     if not isinstance(self.ival, SymInt): return NotImplemented
     return (val.popcount(self.ival, self.size),)
+
+def _binop_int(opname, fn, masked):
+    def h(I, args, kw):
+        self, k = args
+        if not isinstance(k, SymInt) or not isinstance(self.size, int) or not isinstance(self.mask, int): return NotImplemented
+        if k.lo < 0 or k.hi > self.mask: return NotImplemented        # contract precondition: the int operand fits the vector
+        B = _bits().Bits
+        r = B(0, self.size)
+        v = fn(self.ival, k)
+        r.ival = (v & self.mask) if masked else v
+        return (r,)
+    return h
+import operator as _o
+for _n, _f, _m in (('__xor__', _o.xor, False), ('__and__', _o.and_, False), ('__or__', _o.or_, False), ('__add__', _o.add, True), ('__sub__', _o.sub, True)):
+    contract('bits.%s_int' % _n, (lambda n=_n: getattr(_bits().Bits, n)), 'C08:crysp.bits.Bits.binop/int')(_binop_int(_n, _f, _m))
+    LEAF.append('bits.%s_int' % _n)
